@@ -149,8 +149,8 @@ def run(tier, replay=None):
     corpus, sv = V.load_model()
     known = known_classes()
     avoid = set(known)
-    n_prog = 70 if tier == 'quick' else 320
-    batches = 1 if tier == 'quick' else 4
+    n_prog = 70 if tier == 'quick' else 240
+    batches = 1 if tier == 'quick' else 3
     binary = gen.build_generator()
     for batch in range(batches):
         hosts = choose_hosts(corpus, n_prog // batches + len(randprog.PROBES) + (48 if batch == 0 else 0), rng)
